@@ -65,6 +65,7 @@ type FuncContract struct {
 	Ghosts   []GhostVar
 	Assumes  []Clause
 	Tokens   map[string]int // monitor counter -> contributions owned by the calling thread at entry
+	Frozen   []Expr         // locations assumed immutable while the function runs
 	Line     int
 	File     string
 	// resolved
@@ -109,7 +110,7 @@ var directiveKW = map[string]bool{
 	"nopanic": true, "allocbound": true, "unfold": true, "loop": true, "site": true, "ghost": true, "lemma": true, "assume": true,
 	"prop": true, "trusted": true, "pure": true, "end": true, "abstract": true,
 	"audit": true, "transitions": true, "init-store": true,
-	"monitor": true, "cond": true, "protects": true, "invariant": true, "holds": true, "init": true, "counter": true, "token": true,
+	"monitor": true, "cond": true, "protects": true, "invariant": true, "holds": true, "init": true, "counter": true, "token": true, "frozen": true,
 }
 
 // ParseSpecFile extracts directives from the comments of a parsed Go file.
@@ -375,6 +376,17 @@ func ParseSpecFile(fset *token.FileSet, f *ast.File) (*SpecFile, error) {
 				}
 			case "pure":
 				cur.Pure = true
+			case "frozen":
+				// frozen e1, e2: the named locations never change while the function runs (configuration that is
+				// immutable after construction); they keep their value across every havoc. Listed as an assumption.
+				for _, part := range splitTop(rest) {
+					e, err := ParseExpr(part)
+					if err != nil {
+						return nil, fmt.Errorf("%s:%d: %v", sf.Path, d.line, err)
+					}
+					cur.Frozen = append(cur.Frozen, e)
+				}
+				sf.Assumes = append(sf.Assumes, fmt.Sprintf("%s: frozen (never written while the function runs): %s", cur.Key, rest))
 			case "token":
 				// token <counter> <n>: the calling thread owns n contributions to the monitor counter at entry
 				// (a precondition on the caller's history; callers are not verified, so it is listed as an assumption)
